@@ -50,6 +50,17 @@ def all_cases(tier):
                 out.append({"init": "xavier_uniform_", "shape": list(s), "dtype": dt, "rg": True, "args": {"gain": math.sqrt(2.0)}, "np_scalars": True})
                 out.append({"init": "xavier_normal_", "shape": list(s), "dtype": dt, "rg": True, "args": {"gain": math.sqrt(2.0)}, "np_scalars": True})
                 out.append({"init": "kaiming_uniform_", "shape": list(s), "dtype": dt, "rg": True, "args": {"a": 0.2}, "np_scalars": True})
+    # large tensors (a real layer has 10^5 .. 10^6 weights): sizes around and at multiples of 2^16, where a block-wise or chunked
+    # fill would change its path - every element is still a function of its own draw
+    for s in [(65536,), (65537,), (256, 512), (512, 384), (131073,), (64, 32, 8, 8)]:
+        out.append({"init": "uniform_", "shape": list(s), "dtype": "float32", "rg": True, "args": {"a": -2.0, "b": 0.5}})
+        out.append({"init": "normal_", "shape": list(s), "dtype": "float32", "rg": True, "args": {"mean": 1.5, "std": 0.25}})
+        out.append({"init": "constant_", "shape": list(s), "dtype": "float64", "rg": True, "args": {"val": 0.1}})
+        if len(s) >= 2:
+            for init in ("xavier_uniform_", "xavier_normal_", "kaiming_uniform_", "kaiming_normal_"):
+                out.append({"init": init, "shape": list(s), "dtype": "float32", "rg": False, "args": {}})
+    out.append({"init": "Linear", "shape": [256, 512], "dtype": "float32", "rg": True, "args": {"bias": True}})
+    out.append({"init": "Conv2d", "shape": [64, 32, 8, 8], "dtype": "float32", "rg": True, "args": {"bias": True}})
     # defaults
     for init in ("uniform_", "normal_", "xavier_uniform_", "xavier_normal_", "kaiming_uniform_", "kaiming_normal_"):
         out.append({"init": init, "shape": [3, 2], "dtype": "float32", "rg": True, "args": {}})
